@@ -22,6 +22,10 @@ Value model
   use-after-free accesses and `scf.for` with step <= 0 make the WHOLE run POISON.
   Immediate undefined behaviour (division by zero, ...) is additionally recorded in `Result.ub`, so that a
   caller can exclude the entire run (MLIR gives such a run no meaning at all).
+* symref (frontend dialect): `symref.declare @s` introduces a mutable, function-local variable (per call frame,
+  uninitialised = POISON; re-executing the declare resets it), `symref.update @s = %v` assigns,
+  `symref.fetch @s` reads; fetch/update of a symbol that was not declared in the running frame raises
+  `MalformedIR`.
 * effects: ordered list of `(kind, name, args, type_names)` tuples: ("call", callee, ...) for calls of
   external declarations (they return deterministic pseudo-values, see `external_results`),
   ("print", format_string, ...) for printf.print_format, ("op", op_name, ...) for unknown ops without results.
@@ -46,7 +50,7 @@ import math
 import struct
 import zlib
 
-__all__ = ["POISON", "OUT_OF_FUEL", "Result", "MemRef", "UnsupportedOp", "run_function",
+__all__ = ["POISON", "OUT_OF_FUEL", "Result", "MemRef", "UnsupportedOp", "MalformedIR", "run_function",
            "run_function_any_index", "eval_op", "arith_eval", "values_equal", "compare_results",
            "effects_equal", "external_results", "to_signed", "to_unsigned", "round_float",
            "float_to_bits", "bits_to_float", "type_name", "int_width", "selftest"]
@@ -77,6 +81,11 @@ OUT_OF_FUEL = _Sentinel("OUT_OF_FUEL")
 
 class UnsupportedOp(Exception):
     """The program contains an operation / type refsem has no semantics for (caller: discard)."""
+
+
+class MalformedIR(UnsupportedOp):
+    """The IR verifies but cannot be executed because it is ill-formed in a way the verifier does not see
+    (e.g. `symref.fetch` / `symref.update` of a symbol that no executed `symref.declare` introduced)."""
 
 
 class _PoisonRun(Exception):
@@ -670,8 +679,10 @@ def eval_op(op, args, index_bits: int = 64) -> tuple:
     return r
 
 
-def _affine_eval(e, dims, syms):
-    """Value of an affine expression (unbounded ints); POISON if a div/mod has a non-positive rhs."""
+def _affine_eval(e, dims, syms, lim=None):
+    """Value of an affine expression (unbounded ints); POISON if a div/mod has a non-positive rhs, or -- when
+    `lim` is given -- if an intermediate value leaves [-lim, lim): affine expressions are evaluated in `index`
+    arithmetic, and a value that depends on wrap-around has no target-independent meaning."""
     k = type(e).__name__
     if k == "AffineConstantExpr":
         return e.value
@@ -680,23 +691,28 @@ def _affine_eval(e, dims, syms):
     if k == "AffineSymExpr":
         return syms[e.position]
     if k == "AffineBinaryOpExpr":
-        a = _affine_eval(e.lhs, dims, syms)
-        b = _affine_eval(e.rhs, dims, syms)
+        a = _affine_eval(e.lhs, dims, syms, lim)
+        b = _affine_eval(e.rhs, dims, syms, lim)
         if a is POISON or b is POISON:
             return POISON
         kind = e.kind.name
         if kind == "Add":
-            return a + b
-        if kind == "Mul":
-            return a * b
-        if b <= 0:
+            r = a + b
+        elif kind == "Mul":
+            r = a * b
+        elif b <= 0:
             return POISON
-        if kind == "Mod":
-            return a - (a // b) * b
-        if kind == "FloorDiv":
-            return a // b
-        if kind == "CeilDiv":
-            return -((-a) // b)
+        elif kind == "Mod":
+            r = a - (a // b) * b
+        elif kind == "FloorDiv":
+            r = a // b
+        elif kind == "CeilDiv":
+            r = -((-a) // b)
+        else:
+            raise UnsupportedOp(f"affine expression {e}")
+        if lim is not None and not (-lim <= r < lim):
+            return POISON
+        return r
     raise UnsupportedOp(f"affine expression {e}")
 
 
@@ -715,6 +731,7 @@ class _Eval:
         self.ncalls = 0
         self.depth = 0
         self.npoison = 0
+        self.syms = [{}]            # symref variables, one dict per call frame
         self.funcs = {}
         for op in _top_ops(module):
             if op.name == "func.func":
@@ -740,10 +757,12 @@ class _Eval:
         if self.depth >= self.MAX_DEPTH:
             raise _OutOfFuel()
         self.depth += 1
+        self.syms.append({})
         try:
             kind, vals = self.run_region(region, args, {})
         finally:
             self.depth -= 1
+            self.syms.pop()
         if kind != "ret":
             raise UnsupportedOp(f"function body ended with {kind}")
         return vals
@@ -821,6 +840,24 @@ class _Eval:
     def h_print(self, op, vals, env):
         fmt = op.attributes["format_str"].data
         self.effects.append(("print", fmt, vals, tuple(type_name(o.type) for o in op.operands)))
+        return ()
+
+    # ---- symref ----------------------------------------------------------------------------
+    def h_sym_declare(self, op, vals, env):
+        self.syms[-1][op.properties["sym_name"].data] = POISON
+        return ()
+
+    def h_sym_fetch(self, op, vals, env):
+        name = op.properties["symbol"].root_reference.data
+        if name not in self.syms[-1]:
+            raise MalformedIR(f"symref.fetch of undeclared symbol @{name}")
+        return (self.syms[-1][name],)
+
+    def h_sym_update(self, op, vals, env):
+        name = op.properties["symbol"].root_reference.data
+        if name not in self.syms[-1]:
+            raise MalformedIR(f"symref.update of undeclared symbol @{name}")
+        self.syms[-1][name] = vals[0]
         return ()
 
     # ---- scf -------------------------------------------------------------------------------
@@ -978,7 +1015,7 @@ class _Eval:
         out = []
         lim = 1 << (self.ib - 1)
         for e in m.results:
-            r = _affine_eval(e, vs[:nd], vs[nd:])
+            r = _affine_eval(e, vs[:nd], vs[nd:], lim)
             if r is not POISON and not (-lim <= r < lim):
                 r = POISON      # index overflow: depends on the index width
             out.append(r)
@@ -1024,8 +1061,8 @@ class _Eval:
         vs = [self.sidx(v, "affine.if operand") for v in vals]
         ok = True
         for c in s.constraints:
-            a = _affine_eval(c.lhs, vs[:nd], vs[nd:])
-            b = _affine_eval(c.rhs, vs[:nd], vs[nd:])
+            a = _affine_eval(c.lhs, vs[:nd], vs[nd:], 1 << (self.ib - 1))
+            b = _affine_eval(c.rhs, vs[:nd], vs[nd:], 1 << (self.ib - 1))
             if a is POISON or b is POISON:
                 self.poison_run("affine.if constraint undefined")
             k = c.kind.name
@@ -1101,6 +1138,7 @@ _HANDLERS = {
     "memref.store": _Eval.h_store, "memref.dealloc": _Eval.h_dealloc,
     "affine.apply": _Eval.h_affine_apply, "affine.for": _Eval.h_affine_for, "affine.if": _Eval.h_affine_if,
     "affine.load": _Eval.h_affine_load, "affine.store": _Eval.h_affine_store,
+    "symref.declare": _Eval.h_sym_declare, "symref.fetch": _Eval.h_sym_fetch, "symref.update": _Eval.h_sym_update,
 }
 _TERMINATORS = {
     "func.return": _Eval.t_return, "scf.yield": _Eval.t_return, "affine.yield": _Eval.t_return,
@@ -1487,6 +1525,38 @@ builtin.module {
     %q = arith.divsi %a, %b : i32
     func.return %q, %a : i32, i32
   }
+  func.func @symsum(%n: index, %x: i32) -> (i32, i32) {
+    %c0 = arith.constant 0 : index
+    %c1 = arith.constant 1 : index
+    symref.declare "a"
+    symref.update @a = %x : i32
+    symref.declare "u"
+    scf.for %i = %c0 to %n step %c1 {
+      %t = symref.fetch @a : i32
+      %t2 = arith.addi %t, %t : i32
+      symref.update @a = %t2 : i32
+    }
+    %r = symref.fetch @a : i32
+    %u = symref.fetch @u : i32
+    func.return %r, %u : i32, i32
+  }
+  func.func @symbad(%x: i32) -> i32 {
+    %r = symref.fetch @nowhere : i32
+    func.return %r : i32
+  }
+  func.func @symframes(%x: i32) -> i32 {
+    symref.declare "a"
+    symref.update @a = %x : i32
+    %y = func.call @symsum2(%x) : (i32) -> i32
+    %r = symref.fetch @a : i32
+    func.return %r : i32
+  }
+  func.func @symsum2(%x: i32) -> i32 {
+    %c = arith.constant 9 : i32
+    symref.declare "a"
+    symref.update @a = %c : i32
+    func.return %x : i32
+  }
 }
 """
 
@@ -1495,11 +1565,11 @@ _selftest_done = False
 
 def _parse_selftest_module():
     from xdsl.context import Context
-    from xdsl.dialects import affine, arith, builtin, cf, func, memref, printf, scf
+    from xdsl.dialects import affine, arith, builtin, cf, func, memref, printf, scf, symref
     from xdsl.parser import Parser
     ctx = Context(allow_unregistered=True)
     for d in (builtin.Builtin, arith.Arith, func.Func, scf.Scf, cf.Cf, memref.MemRef, affine.Affine,
-              printf.Printf):
+              printf.Printf, symref.Symref):
         ctx.load_dialect(d)
     m = Parser(ctx, _SELFTEST_IR).parse_module()
     m.verify()
@@ -1589,7 +1659,20 @@ def selftest(force: bool = False) -> int:
     assert compare_results(run("divz", 6, 3), run("divz", 6, 3))[0] == "equal"
     assert compare_results(run("divz", 6, 3), run("divz", 6, 2))[0] == "differ"
     assert run_function_any_index(m, "sum", (5,)).values == (10,)
-    n += 36
+    assert run("symsum", 3, 5).values == (40, POISON) and run("symsum", 0, 5).values == (5, POISON)
+    assert run("symframes", 4).values == (4,)            # the callee's @a is another variable
+    try:
+        run("symbad", 1)
+        raise AssertionError("refsem selftest: fetch of an undeclared symbol must raise MalformedIR")
+    except MalformedIR:
+        pass
+    from xdsl.ir.affine import AffineBinaryOpExpr, AffineBinaryOpKind, AffineConstantExpr, AffineDimExpr
+    ex = AffineBinaryOpExpr(AffineBinaryOpKind.CeilDiv,
+                            AffineBinaryOpExpr(AffineBinaryOpKind.Mul, AffineDimExpr(0), AffineConstantExpr(-2)),
+                            AffineConstantExpr(6))
+    assert _affine_eval(ex, [-9], [], 1 << 63) == 3 and _affine_eval(ex, [-(1 << 63)], []) == (1 << 64) // 6 + 1
+    assert _affine_eval(ex, [-(1 << 63)], [], 1 << 63) is POISON       # d0 * -2 leaves the index range
+    n += 43
     _selftest_done = True
     return n
 
